@@ -80,7 +80,7 @@ static void run_program(tctx *c)
     me = c;
     for (i = 0; i < NTREES; i++) { enter(c, F_EDIT); t[i] = g_tree(&r, 0, 1); leave(c); }
     for (n = 0; n < c->calls; n++) {
-        unsigned what = g_below(&r, 14);
+        unsigned what = g_below(&r, 16);
         unsigned a = g_below(&r, NTREES), b = g_below(&r, NTREES);
         if (c->concurrent) perturb(&pr);
         switch (what) {
@@ -226,6 +226,40 @@ static void run_program(tctx *c)
             enter(c, F_SORT); if (g_below(&r, 2)) cJSONUtils_SortObjectCaseSensitive(t[a]); else cJSONUtils_SortObject(t[a]); leave(c);
             enter(c, F_PRINT); s = cJSON_PrintUnformatted(t[a]); leave(c);
             if (s) { h = g_fnv(h, s, strlen(s)); cJSON_free(s); }
+            break;
+        }
+        case 13: case 14: {   /* hand-written patches, including the whole-document operations */
+            static const char *const P[] = {
+                "[{\"op\":\"remove\",\"path\":\"\"}]",
+                "[{\"op\":\"replace\",\"path\":\"\",\"value\":{\"x\":[1,2]}}]",
+                "[{\"op\":\"add\",\"path\":\"\",\"value\":[1]}]",
+                "[{\"op\":\"test\",\"path\":\"\",\"value\":1}]",
+                "[{\"op\":\"copy\",\"from\":\"\",\"path\":\"\"}]",
+                "[{\"op\":\"move\",\"from\":\"\",\"path\":\"\"}]",
+                "[{\"op\":\"add\",\"path\":\"/zz\",\"value\":true},{\"op\":\"move\",\"from\":\"/zz\",\"path\":\"/yy\"},{\"op\":\"copy\",\"from\":\"/yy\",\"path\":\"/ww\"},{\"op\":\"remove\",\"path\":\"/yy\"}]",
+                "[{\"op\":\"add\",\"path\":\"/-\",\"value\":null},{\"op\":\"add\",\"path\":\"/0\",\"value\":{\"b\":1,\"a\":2}},{\"op\":\"test\",\"path\":\"/0\",\"value\":{\"a\":2,\"b\":1}},{\"op\":\"replace\",\"path\":\"/0\",\"value\":7}]",
+                "[{\"op\":\"remove\",\"path\":\"/a\"},{\"op\":\"add\",\"path\":\"/a\",\"value\":\"x\"}]",
+                "[{\"op\":\"bogus\",\"path\":\"/a\"}]",
+                "{\"a\":null,\"b\":{\"c\":1}}"
+            };
+            const char *text = P[g_below(&r, sizeof P / sizeof P[0])];
+            cJSON *patch, *cp;
+            int st = -1;
+            enter(c, F_PARSE); patch = cJSON_Parse(text); leave(c);
+            enter(c, F_DUP); cp = cJSON_Duplicate(t[a], 1); leave(c);
+            if (patch && cp) {
+                char *s;
+                if (cJSON_IsArray(patch)) {
+                    enter(c, F_PATCH); st = g_below(&r, 2) ? cJSONUtils_ApplyPatchesCaseSensitive(cp, patch) : cJSONUtils_ApplyPatches(cp, patch); leave(c);
+                } else {
+                    enter(c, F_MERGE); cp = g_below(&r, 2) ? cJSONUtils_MergePatchCaseSensitive(cp, patch) : cJSONUtils_MergePatch(cp, patch); leave(c);
+                }
+                enter(c, F_PRINT); s = cp ? cJSON_PrintUnformatted(cp) : NULL; leave(c);
+                if (s) { h = g_fnv(h, s, strlen(s)); cJSON_free(s); }
+                if (cp) { int ty = cp->type & 0xFF, links = (cp->next != NULL) | ((cp->prev != NULL) << 1); h = g_fnv(h, &ty, sizeof ty); h = g_fnv(h, &links, sizeof links); }
+            }
+            h = g_fnv(h, &st, sizeof st);
+            enter(c, F_DELETE); cJSON_Delete(patch); cJSON_Delete(cp); leave(c);
             break;
         }
         default: {   /* delete and regenerate */
